@@ -27,24 +27,49 @@ def run(ctx):
     r5(ctx)
 
 
+def emitted_head(repo, fields):
+    """The bytes Response.send_headers hands to util.write for a Response whose fields have the given values, computed
+    by the finite abstract evaluator over send_headers / default_headers (nothing is executed); UNKNOWN when some other
+    quantity decides it.  Independent of how the code spells the formatting (%, format, f-string, loops, helpers)."""
+    f = repo.func(RESP + ".send_headers")
+    g = f.cfg
+    writes = [(n, c) for c in calls_to(repo, f, ["gunicorn.util.write", "gunicorn.util.write_nonblock"]) for n in nodes_with(f, c)]
+    if not writes:
+        raise AnalysisError("C09: send_headers never writes to the socket")
+
+    def atom_of(e):
+        if isinstance(e, ast.Call) and (e.func.attr if isinstance(e.func, ast.Attribute) else getattr(e.func, "id", "")) == "http_date":
+            return "DATE"
+        return None
+    env = {"self.headers_sent": False, "self.status": "200 OK", "self.req.version": (1, 1), "self.version": "gunicorn/0", "self.chunked": False,
+           "DATE": "<date>", "self.must_close": True, "self.upgrade": False, "self.headers": ()}
+    env.update(fields)
+    node, call = writes[0]
+
+    def probe(ex_, env_):
+        return ex_.ev(call.args[1], env_)
+    ex = Explorer(f, atom_of=atom_of, inline_depth=3)
+    outs = ex.run(g.entry, env, probes={node.id: ("head", probe)})
+    vals = set(v for o in outs for (k, v) in o.events if isinstance((k, v), tuple) and k == "head")
+    if len(vals) != 1:
+        return UNKNOWN
+    v = vals.pop()
+    return UNKNOWN if v == "U" else v
+
+
 def head_fields(ctx):
-    """attributes of the Response that are formatted into the head"""
+    """attributes of the Response whose value is formatted into the head: a marker stored in the field shows up in
+    the emitted bytes"""
     repo = ctx.repo
+    ctx.fn(repo.func(RESP + ".send_headers"))
+    ctx.fn(repo.func(RESP + ".default_headers"))
+    head = emitted_head(repo, {"self.status": "@@status@@", "self.version": "@@version@@", "self.headers": (("@@hn@@", "@@hv@@"),)})
+    if head is UNKNOWN or not isinstance(head, bytes):
+        raise AnalysisError("C09: the response head emitted by send_headers cannot be evaluated")
     out = set()
-    for nm in ("default_headers", "send_headers"):
-        f = ctx.fn(repo.func(RESP + "." + nm))
-        for n in walk_own(f.node):
-            roots = []
-            if isinstance(n, ast.BinOp) and isinstance(n.op, ast.Mod):
-                roots.append(n.right)
-            elif isinstance(n, ast.JoinedStr):
-                roots.append(n)
-            elif isinstance(n, (ast.ListComp, ast.GeneratorExp)):
-                roots += [g.iter for g in n.generators]
-            for r in roots:
-                for x in ast.walk(r):
-                    if isinstance(x, ast.Attribute) and isinstance(x.value, ast.Name) and x.value.id == "self":
-                        out.add(x.attr)
+    for fld, marks in (("status", [b"@@status@@"]), ("version", [b"@@version@@"]), ("headers", [b"@@hn@@", b"@@hv@@"])):
+        if all(m in head for m in marks):
+            out.add(fld)
     return out
 
 
@@ -178,15 +203,14 @@ def r3(ctx):
     ctx.check("C09.R3", not bad, key(f, "no-send-in-start_response"), site(f), "start_response sends bytes: a later refusal could not be clean", "nothing is sent in start_response")
     callers = [ff for ff in repo.funcs() for c, q in repo.calls_in(ff) if q == RESP + ".process_headers"]
     ctx.check("C09.R3", all(ff.qualname == RESP + ".start_response" for ff in callers), key(f, "process_headers-callers"), site(f), "process_headers has other callers than start_response", "single caller")
-    # send_headers emits default_headers() + one line per accepted header
+    # send_headers emits the default lines + one `name: value CRLF` per accepted header + the empty line (evaluated)
     f = ctx.fn(repo.func(RESP + ".send_headers"))
-    dh = calls_to(repo, f, RESP + ".default_headers")
-    comp = [x for x in walk_own(f.node) if isinstance(x, (ast.ListComp, ast.GeneratorExp)) and any(norm(gg.iter) == "self.headers" for gg in x.generators)]
-    okk = bool(dh) and len(comp) == 1
-    if okk:
-        elt = comp[0].elt
-        okk = isinstance(elt, ast.BinOp) and isinstance(elt.left, ast.Constant) and elt.left.value == "%s: %s\r\n"
-    ctx.check("C09.R3", okk, key(f, "one-line-per-header"), site(f), "send_headers does not emit exactly `name: value CRLF` per accepted header after the default lines", "default lines + '%s: %s\\r\\n' per header")
+    base = emitted_head(repo, {})
+    two = emitted_head(repo, {"self.headers": (("X-A", "1"), ("X-B", "caf\u00e9"))})
+    okk = isinstance(base, bytes) and isinstance(two, bytes) and base.endswith(b"\r\n\r\n") and base.startswith(b"HTTP/1.1 200 OK\r\n") \
+        and two == base[:-2] + b"X-A: 1\r\nX-B: caf\xe9\r\n\r\n"
+    ctx.check("C09.R3", okk, key(f, "one-line-per-header"), site(f), "send_headers does not emit exactly `name: value CRLF` per accepted header (latin-1) after the default lines and before the empty line: %r" % (two,),
+              "default lines + 'name: value\\r\\n' per header + CRLF")
     enc = [c for c in calls_to(repo, f, "gunicorn.util.to_bytestring")]
     ctx.check("C09.R3", bool(enc) and all(len(c.args) > 1 and str(const(c.args[1], "")).lower().replace("-", "") in ("latin1", "iso88591") for c in enc), key(f, "latin1"), site(f),
               "the head is not encoded as latin-1 (obs-text would be re-encoded into other bytes)", "latin-1")
